@@ -239,6 +239,42 @@ pub fn run(args: &Args) -> i32 {
         out.line(&json!({"op":"refcrc","ip":arr(&ip.octets()),"r":r,"prefix":[p[0], p[1], p[2] & 0xf8]}));
         distinct += 3;
     }
+    // --- twins: an exempt address (private / loopback / link-local) and public addresses that agree with it on every bit the
+    // BEP42 mask keeps (0x030f3fff), judged alternately with ids that share r - whatever was learned for one address (a cache,
+    // a memo, a table keyed by the masked input) must not carry over to the other; both orders, both verdicts
+    for i in 0..(if thorough { 4000 } else { 400 }) {
+        let exempt = match i % 4 {
+            0 => Ipv4Addr::new(10, rng.below(256) as u8, rng.below(256) as u8, rng.below(256) as u8),
+            1 => Ipv4Addr::new(127, rng.below(256) as u8, rng.below(256) as u8, rng.below(256) as u8),
+            2 => Ipv4Addr::new(192, 168, rng.below(256) as u8, rng.below(256) as u8),
+            _ => Ipv4Addr::new(169, 254, rng.below(256) as u8, rng.below(256) as u8),
+        };
+        let e = u32::from(exempt);
+        // a public twin: same masked bits, other free bits
+        let mut twin = Ipv4Addr::from((e & 0x030f_3fff) | (rng.below(1 << 32) as u32 & !0x030f_3fff));
+        while crypto::ip_exempt(twin) {
+            twin = Ipv4Addr::from((e & 0x030f_3fff) | (rng.below(1 << 32) as u32 & !0x030f_3fff));
+        }
+        let r = rng.below(8) as u8;
+        let mk = |rng: &mut Rng, ip: Ipv4Addr, good: bool| {
+            let mut fill = rng.id();
+            fill[19] = (fill[19] & 0xf8) | r;
+            let mut id = crypto::bep42_id(ip, fill);
+            if !good {
+                let bit = rng.below(21) as usize;
+                id[bit / 8] ^= 0x80 >> (bit % 8);
+            }
+            id
+        };
+        let order: [(Ipv4Addr, bool); 4] = if i % 2 == 0 { [(exempt, false), (twin, false), (twin, true), (exempt, true)] } else { [(twin, true), (exempt, false), (twin, false), (exempt, false)] };
+        for (ip, good) in order {
+            // ids are made for the TWIN (for the exempt address every id is valid anyway)
+            let id = mk(&mut rng, twin, good);
+            let obs = Id::from(id).is_valid_for_ip(ip);
+            out.line(&json!({"op":"valid","id":arr(&id),"ip":arr(&ip.octets()),"obs":obs}));
+            distinct += 1;
+        }
+    }
     let lines = out.lines;
     out.finish();
     // --- exhaustive sweep of the masked BEP42 space against the (TLA-validated) harness reference
